@@ -11,6 +11,7 @@ From Coq Require Import List Arith Bool.
 Import ListNotations.
 From ZI Require Import Lib.Util Model.Decl Spec.Provided Proofs.Decl.
 From ZI Require Import Model.DeclKernelPrims Gen.DeclKernel Proofs.DeclKernel.
+From ZI Require Import Model.DeclLazy Proofs.DeclLazy.
 
 (* The central statement: after every history, for every instance / class object t and every
    class c, what the model answers to providedBy(t) and implementedBy(c) lies between the two
@@ -66,6 +67,8 @@ Print Assumptions C01_non_interference.
    OTHER instances changes nothing in what instance o provides, now or later.  This is the
    statement that needs Provides.changed (it is refuted below for the model without it). *)
 Theorem C01_history_non_interference : forall g ops o,
+  (* the calls that stay do not take declaration objects of OTHER instances as arguments *)
+  forallb (fun p => other_inst_decl o p || op_local o p) ops = true ->
   let ops' := filter (fun p => negb (other_inst_decl o p)) ops in
   (forall x, In x (provided g (run true g ops) (TInst o)) <-> In x (provided g (run true g ops') (TInst o))) /\
   (forall x, In x (dpb (run true g ops) (TInst o)) <-> In x (dpb (run true g ops') (TInst o))).
@@ -227,7 +230,7 @@ Theorem C01_generated_step_eq_model : forall g st o,
   NoDup (map fst (cache st)) ->
   (decl_class o <> None \/ decl_target o <> None) ->
   (forall t, decl_target o = Some t -> target_live st t) ->
-  gen_step g (embed st) o =
+  gen_step g (embed st) o (nargs st (op_args o)) =
   embed_exc (step true g st o) (if raises g (step true g st o) o then Some exc_ValueError else None).
 Proof. exact generated_step_eq_spelled. Qed.
 Print Assumptions C01_generated_step_eq_model.
@@ -236,15 +239,69 @@ Theorem C01_generated_cache_keys_unique : forall ev g ops, NoDup (map fst (cache
 Proof. exact cku_run. Qed.
 Print Assumptions C01_generated_cache_keys_unique.
 
+(* ---- Lazy creation of class specifications (Model/DeclLazy.v: implementedBy creates a
+   specification on first demand, from its bases' specifications, recursively).  Histories
+   [qs] interleave the declaration / creation steps with queries (implementedBy(c),
+   providedBy(t), directlyProvidedBy(t)) in any order; [ops_of qs] forgets the queries. *)
+
+(* "in any order relative to subclass creation, instance creation and earlier queries": every
+   answer of the lazy model, after any history with any queries anywhere in it, is the answer
+   of the model of the theorems above after the same history without the queries *)
+Theorem C01_lazy_answers_eq_eager : forall g qs,
+  let z := zrun g qs in
+  let st := run true g (ops_of qs) in
+  (forall c, snd (zq_implemented g z c) = implemented g st c) /\
+  (forall c i, snd (zq_i_implementedBy g z c i) = i_implementedBy g st c i) /\
+  (forall t, snd (zq_provided g z t) = provided g st t) /\
+  (forall t, zq_dpb z t = dpb st t).
+Proof. exact lazy_answers_eq_eager. Qed.
+Print Assumptions C01_lazy_answers_eq_eager.
+
+(* hence the ledger sandwich for the lazy model, whatever was queried before *)
+Theorem C01_lazy_provided_within_ledger : forall g qs,
+  let z := zrun g qs in
+  let L := lrun g (ops_of qs) in
+  (forall t, incl (lo_provided g L t) (snd (zq_provided g z t)) /\ incl (snd (zq_provided g z t)) (hi_provided g L t)) /\
+  (forall c, incl (lo_implemented g L c) (snd (zq_implemented g z c)) /\
+             incl (snd (zq_implemented g z c)) (hi_implemented g L c)).
+Proof. exact lazy_provided_within_ledger. Qed.
+Print Assumptions C01_lazy_provided_within_ledger.
+
+(* why: a class whose specification does not exist yet holds exactly what the specification
+   will contain when implementedBy creates it (every call that changes a specification creates
+   it first); an existing specification points only to existing ones; an instance with its own
+   __provides__ has a class specification *)
+Theorem C01_lazy_invariant : forall g qs,
+  let z := zrun g qs in
+  (forall c r, nth_error (classes (fst z)) c = Some r -> zcreated (snd z) c = false ->
+     c_decl r = [] /\ c_inherit r = true /\ c_cprov r = []) /\
+  (forall c r b, zcreated (snd z) c = true -> nth_error (classes (fst z)) c = Some r -> In b (c_bases r) ->
+     zcreated (snd z) b = true) /\
+  (forall o r k, nth_error (insts (fst z)) o = Some r -> i_prov r = Some k -> zcreated (snd z) (i_cls r) = true).
+Proof. exact lazy_invariant. Qed.
+Print Assumptions C01_lazy_invariant.
+
+(* implementedBy itself, as translated from the source text (the path for a class whose
+   __dict__ can be read: dict lookup, isinstance Implements, the builtin table, creation from
+   [implementedBy(b) for b in cls.__bases__], the store with its ``except TypeError`` branch for
+   immutable types, installation of __provides__): on every reachable lazy state it returns the
+   class's specification and changes the state exactly as [zensure] of Model/DeclLazy.v does *)
+Theorem C01_generated_implementedBy_eq_model : forall g qs x c,
+  let z := zrun g qs in
+  c < length (classes (fst z)) ->
+  gen_implementedBy (S c) g (zembed z x) (RClass c) = (zembed (zensure z c) x, NC c).
+Proof. exact generated_implementedBy_eq_lazy. Qed.
+Print Assumptions C01_generated_implementedBy_eq_model.
+
 (* ---- non-vacuity.  I1 extends I0; I2 alone.  C2(C0, C1): multiple inheritance; C1 has a custom
    metaclass that implements I1. *)
 Definition ex_g : igraph := [[]; [0]; []].
 Definition ex_ops : list op :=
-  [NewClass [] None; Implementer 0 [1]; NewClass [] (Some [1]); NewClass [0; 1] None; NewInstance 2;
-   DirectlyProvides (TInst 0) [0; 2];      (* I0 is redundant (C2 inherits I1 from C0): dropped *)
-   ClassImplementsOnly 0 [2];              (* the base is narrowed: the shared declaration is evicted *)
-   NewInstance 2; DirectlyProvides (TInst 1) [0; 2];  (* same arguments: now I0 is kept, I2 dropped *)
-   NewInstance 1; Provider (TCls 1) [0; 2]; AlsoProvides (TInst 2) [1]; NoLongerProvides (TInst 2) 1].
+  [NewClass [] None false; Implementer 0 [AI 1]; NewClass [] (Some [1]) false; NewClass [0; 1] None false; NewInstance 2;
+   DirectlyProvides (TInst 0) [AI 0; AI 2];      (* I0 is redundant (C2 inherits I1 from C0): dropped *)
+   ClassImplementsOnly 0 [AI 2];              (* the base is narrowed: the shared declaration is evicted *)
+   NewInstance 2; DirectlyProvides (TInst 1) [AI 0; AI 2];  (* same arguments: now I0 is kept, I2 dropped *)
+   NewInstance 1; Provider (TCls 1) [AI 0; AI 2]; AlsoProvides (TInst 2) [AI 1]; NoLongerProvides (TInst 2) 1].
 
 Example C01_witness :
   wf_igraph ex_g /\
@@ -267,3 +324,44 @@ Proof.
   split; [apply wf_igraphb_ok; reflexivity|].
   vm_compute. repeat split; try reflexivity; discriminate.
 Qed.
+
+(* lazy creation: C0 <- C1 <- C2, declarations on the base before the subclasses exist, no
+   query until an instance of C2 is asked: implementedBy(C2) then creates C2, C1 (C0 exists since
+   it was declared on); C3 stays without specification; a built-in type. *)
+Definition lazy_qs : list zop :=
+  [ZOp (NewClass [] None false); ZOp (Implementer 0 [AI 1]); ZOp (NewClass [0] None false);
+   ZOp (NewClass [1] None false); ZOp (NewClass [] None false); ZOp (NewInstance 2);
+   ZQProvidedBy (TCls 2); ZQDirectlyProvidedBy (TInst 0)].
+
+Example C01_lazy_witness :
+  snd (zrun ex_g lazy_qs) = [true; false; false; false] /\
+  snd (zq_provided ex_g (zrun ex_g lazy_qs) (TInst 0)) = [1; 0] /\
+  snd (fst (zq_provided ex_g (zrun ex_g lazy_qs) (TInst 0))) = [true; true; true; false] /\
+  snd (zrun ex_g (lazy_qs ++ [ZOp (ClassImplementsOnly 1 [AI 2]); ZQImplementedBy 2])) = [true; true; true; false] /\
+  snd (zq_implemented ex_g (zrun ex_g (lazy_qs ++ [ZOp (ClassImplementsOnly 1 [AI 2])])) 2) = [2].
+Proof. vm_compute. repeat split; reflexivity. Qed.
+
+(* a built-in type and an instance of it: declarations on the class work (through
+   BuiltinImplementationSpecifications), object-level declarations raise and change nothing *)
+Example C01_builtin_witness :
+  let ops := [NewClass [] None true; NewInstance 0; Implementer 0 [AI 1]] in
+  let st := run true ex_g ops in
+  provided ex_g st (TInst 0) = [1; 0] /\
+  exc_code ex_g st (step true ex_g st (DirectlyProvides (TInst 0) [AI 2])) (DirectlyProvides (TInst 0) [AI 2]) = 3 /\
+  exc_code ex_g st (step true ex_g st (AlsoProvides (TCls 0) [AI 2])) (AlsoProvides (TCls 0) [AI 2]) = 2 /\
+  step true ex_g st (DirectlyProvides (TInst 0) [AI 2]) = st /\ step true ex_g st (AlsoProvides (TCls 0) [AI 2]) = st.
+Proof. vm_compute. repeat split; reflexivity. Qed.
+
+(* declaration OBJECTS as arguments: alsoProvides(o1, directlyProvidedBy(o0), I2) and
+   classImplements(C1, providedBy(o0)) expand, at the moment of the call, into the interfaces the
+   object names; later changes of o0 do not follow *)
+Example C01_argument_objects_witness :
+  let ops := [NewClass [] None false; Implementer 0 [AI 0]; NewInstance 0; NewInstance 0; NewClass [] None false;
+              DirectlyProvides (TInst 0) [AI 1; AI 2];                       (* I1 kept (extends I0), I2 kept *)
+              AlsoProvides (TInst 1) [ADirectlyProvidedBy (TInst 0); AI 0];  (* I1, I2 and the redundant I0 *)
+              ClassImplements 1 [AProvidedBy (TInst 0)];                    (* I1, I2 and C0's I0 *)
+              DirectlyProvides (TInst 0) []] in
+  let st := run true ex_g ops in
+  dpb st (TInst 1) = [1; 2] /\ implemented ex_g st 1 = [1; 0; 2; 0] /\ dpb st (TInst 0) = [] /\
+  nargs (run true ex_g (firstn 6 ops)) [AProvidedBy (TInst 0); ADirectlyProvidedBy (TInst 1)] = [1; 2; 0].
+Proof. vm_compute. repeat split; reflexivity. Qed.
